@@ -1,0 +1,10 @@
+//go:build verif
+
+// Contracts for the deductive verifier in /verif (icsvc). Comment-only: this file contributes no code.
+
+package genutil
+
+// ---------------------------------------------------------------- C15: the wrapped genutil module never hands validator updates to consensus
+
+//@ func AppModule.InitGenesis
+//@ ensures [no-updates-from-genutil] len(result) == 0
